@@ -361,20 +361,40 @@ func ReverseSubAfterLoss(res *fw.Result, seed int64, base int) error {
 	}(); err != nil || len(o.Calls) != 1 || o.Calls[0].Err != "" {
 		res.Add(fw.Finding{Kind: "monitor", Signature: sig + " plain reverse call fails", Detail: fmt.Sprintf("after the reconnect a plain reverse call failed: %+v %v", o, err), Case: c})
 	}
-	// … and so must a reverse subscription
+	// … and so must a reverse subscription; while it is open the producer of the old connection's
+	// subscription, still alive, emits once more: that value belongs to nobody on this connection
 	h.C.feed(arg2) <- 21
 	done := make(chan struct{})
 	var o2 Out
 	var err2 error
-	go func() { defer close(done); o2, err2 = run(base + 2) }()
+	go func() {
+		defer close(done)
+		cctx, cc := context.WithTimeout(ctx, 8*time.Second)
+		defer cc()
+		o2, err2 = api.Run(cctx, Spec{Tok: base + 2, Method: "Ticks2", N: 1, Bg: true})
+	}()
+	fed := make(chan struct{})
+	go func() {
+		defer close(fed)
+		if h.C.waitEntered(arg2, 3*time.Second) {
+			time.Sleep(40 * time.Millisecond)
+			h.C.feed(arg1) <- 111
+			time.Sleep(40 * time.Millisecond)
+			h.C.feed(arg2) <- 22
+		}
+	}()
+	defer func() { <-fed }() // (runs before the feeds are closed below only on early returns; the normal path waits explicitly)
 	select {
 	case <-done:
-		if err2 != nil || len(o2.Calls) != 1 || o2.Calls[0].Err != "" || o2.Calls[0].Val != 21 {
+		if err2 != nil || len(o2.Calls) != 1 || o2.Calls[0].Err != "" {
 			res.Add(fw.Finding{Kind: "monitor", Signature: sig + " not answered", Detail: fmt.Sprintf("after the reconnect a reverse subscription failed: %+v %v", o2, err2), Case: c})
+		} else if o2.Calls[0].Val != 21*1000+22 {
+			res.Add(fw.Finding{Kind: "monitor", Signature: sig + " foreign value", Detail: fmt.Sprintf("the reverse subscription of the new connection delivered %d and %d; its producer sent 21 and 22 (111 was sent by the producer of the previous connection's subscription)", o2.Calls[0].Val/1000, o2.Calls[0].Val%1000), Case: c})
 		}
 	case <-time.After(7 * time.Second):
 		res.Add(fw.Finding{Kind: "monitor", Signature: sig + " not answered", Detail: "a reverse subscription made on the re-established connection was never answered (no response frame for its request): the forwarding goroutine of the client ended with the previous connection", Case: c})
 	}
+	<-fed
 	close(h.C.feed(arg1))
 	close(h.C.feed(arg2))
 	res.Count("reverse-sub-after-loss")
